@@ -130,9 +130,7 @@ theorem parseComment_spec (st : PState) : wp parseComment (RG st) st := by
 theorem parameter_spec (st : PState) : wp (parameter s) (fun r st' => M st st' ∧ GoodO r) st := by
   unfold parameter
   vc
-  split
-  · apply errorLine_wp; vc; exact ⟨fun _ => by simp [D], by simp⟩
-  · exact ⟨id, by simp⟩
+  exact ⟨id, by simp⟩
 
 theorem parseFunctionParametersLoop_spec : ∀ (fuel : Nat) (acc : NList) (st : PState), GoodL acc →
     wp (parseFunctionParametersLoop s fuel acc) (fun r st' => M st st' ∧ GoodL r) st
@@ -164,8 +162,13 @@ theorem parseFunctionParameters_spec (fuel : Nat) (st : PState) :
     rcases h2 with ⟨rfl, _, rfl⟩ | ⟨rfl, _, d⟩
     · vc
       simp only [Bool.not_true, Bool.false_eq_true, if_false]
-      vc
-      exact ⟨fun d => by simpa using h1.1 (h0.1 (by simpa using d)), h1.2⟩
+      split
+      · vc
+        exact ⟨fun d => by simpa using h1.1 (h0.1 (by simpa using d)), h1.2⟩
+      · vc
+        apply errorLine_wp
+        vc
+        exact ⟨fun _ => by simp [D], by simp⟩
     · simp only [Bool.not_false, if_true, wp_pure]
       exact ⟨fun _ => d, by simp⟩
 
